@@ -35,11 +35,17 @@ import (
 //	       for size, prefix, and the truncation message
 
 type c23Reply struct {
-	Kind    int    `json:"kind"` // 0 ok; 1 ok+message; 2 failed+message; 3 wrong type byte; 4 garbage body; 5 empty payload; 6 list; 7 failed list
+	// Kind: 0 ok; 1 ok+message; 2 failed+message; 3 wrong type byte (TB); 4 garbage
+	// body (Raw; may be empty: the type byte alone); 5 empty payload; 6 list;
+	// 7 failed list; 8 a valid list reply cut short (Cut); 9 well-formed msgpack of
+	// another shape behind the right type byte (Cut selects it)
+	Kind    int    `json:"kind"`
 	Msg     string `json:"msg"`
 	Keys    []int  `json:"keys"`
 	Primary int    `json:"primary"` // -1 = none
 	Raw     []byte `json:"raw"`
+	TB      int    `json:"tb"` // kind 3: the type byte
+	Cut     int    `json:"cut,omitempty"`
 }
 
 type c23Case struct {
@@ -50,6 +56,12 @@ type c23Case struct {
 	Replies  []c23Reply `json:"replies"`
 	NKeys    int        `json:"nkeys"` // trunc
 	Limit    int        `json:"limit"` // trunc
+	// trunc: what else goes into the size of the reply (defaults: "lister", 1, 4242)
+	Name  string `json:"name,omitempty"`
+	LTime uint64 `json:"ltime,omitempty"`
+	ID    uint32 `json:"id,omitempty"`
+	// api: relay factor handed to the ...WithOptions variant (0 = the plain call)
+	Relay int `json:"relay,omitempty"`
 }
 
 func c23KeyName(i int) string { return base64.StdEncoding.EncodeToString(c23Key(i)) }
@@ -64,7 +76,7 @@ func c23Key(i int) []byte {
 func genC23Replies(t *rapid.T, n int) []c23Reply {
 	var out []c23Reply
 	for i := 0; i < n; i++ {
-		r := c23Reply{Kind: rapid.SampledFrom([]int{0, 0, 1, 2, 2, 3, 4, 5, 6, 6, 6, 7}).Draw(t, "kind"), Primary: -1}
+		r := c23Reply{Kind: rapid.SampledFrom([]int{0, 0, 1, 2, 2, 3, 4, 5, 6, 6, 6, 7, 8, 9}).Draw(t, "kind"), Primary: -1}
 		switch r.Kind {
 		case 1, 2, 7:
 			r.Msg = rapid.SampledFrom([]string{"", "boom", "requested key is not in the keyring", "x"}).Draw(t, "msg")
@@ -72,7 +84,16 @@ func genC23Replies(t *rapid.T, n int) []c23Reply {
 		if r.Kind == 2 && rapid.IntRange(0, 3).Draw(t, "emptymsg") > 0 && r.Msg == "" {
 			r.Msg = "failed"
 		}
-		if r.Kind >= 6 || r.Kind == 3 {
+		if r.Kind == 3 {
+			// every other type byte: the neighbours of the key-response type, the
+			// key-request type, 0 and the far end
+			r.TB = int(rapid.SampledFrom([]uint8{serf.VerifMessageQueryResponseType, 0, serf.VerifMessageKeyRequestType, serf.VerifMessageKeyResponseType - 1,
+				serf.VerifMessageKeyResponseType + 1, serf.VerifMessageRelayType, 255, 128}).Draw(t, "tb"))
+		}
+		if r.Kind == 8 || r.Kind == 9 {
+			r.Cut = rapid.IntRange(0, 200).Draw(t, "cut")
+		}
+		if r.Kind >= 6 && r.Kind <= 8 || r.Kind == 3 {
 			nk := rapid.IntRange(0, 5).Draw(t, "nkeys")
 			for j := 0; j < nk; j++ {
 				r.Keys = append(r.Keys, rapid.IntRange(0, 5).Draw(t, "key"))
@@ -80,7 +101,7 @@ func genC23Replies(t *rapid.T, n int) []c23Reply {
 			r.Primary = rapid.IntRange(-1, 5).Draw(t, "primary")
 		}
 		if r.Kind == 4 {
-			r.Raw = rapid.SliceOfN(rapid.Byte(), 1, 30).Draw(t, "raw")
+			r.Raw = rapid.SliceOfN(rapid.Byte(), 0, 30).Draw(t, "raw")
 		}
 		out = append(out, r)
 	}
@@ -105,6 +126,7 @@ func genC23(t *rapid.T) c23Case {
 	case "api":
 		c.Fake = rapid.IntRange(0, 4).Draw(t, "fake")
 		c.Op = rapid.IntRange(0, 3).Draw(t, "op")
+		c.Relay = rapid.SampledFrom([]int{0, 0, 1, 3, 255}).Draw(t, "relay")
 		nn := c.Fake + 1
 		var n int
 		switch rapid.IntRange(0, 5).Draw(t, "nreplies.k") {
@@ -125,10 +147,53 @@ func genC23(t *rapid.T) c23Case {
 			}
 		}
 	case "trunc":
+		c.Name = rapid.SampledFrom([]string{"", "", "n", "lister-with-a-rather-long-node-name.dc1.example.org", string(bytes.Repeat([]byte{'x'}, 128))}).Draw(t, "name")
+		c.LTime = rapid.SampledFrom([]uint64{0, 0, 127, 128, 1 << 16, 1 << 32, 1 << 63}).Draw(t, "ltime")
+		c.ID = rapid.SampledFrom([]uint32{0, 0, 1, 127, 128, 65536, 0xffffffff}).Draw(t, "id")
 		c.NKeys = rapid.SampledFrom([]int{1, 2, 3, 5, 10, 20, 40, 41, 60, 120, 30, 80, rapid.IntRange(1, 120).Draw(t, "nkeys.any")}).Draw(t, "nkeys")
 		c.Limit = rapid.SampledFrom([]int{1024, 1024, 200, 300, 400, 600, 4096, rapid.IntRange(60, 4096).Draw(t, "limit.any"), rapid.IntRange(160, 1500).Draw(t, "limit.mid"), rapid.IntRange(60, 200).Draw(t, "limit.small")}).Draw(t, "limit")
+		// half of the cases sit exactly on a boundary: the limit is the size of the
+		// reply that shows k keys (computed with the msgpack library, see
+		// c23ReplySize), one byte less, or one byte more
+		if rapid.Bool().Draw(t, "limit.boundary") {
+			k := rapid.SampledFrom([]int{0, 1, 1, 1, 2, 3, c.NKeys - 1, c.NKeys, c.NKeys, rapid.IntRange(0, c.NKeys).Draw(t, "limit.k.any")}).Draw(t, "limit.k")
+			k = max(0, min(k, c.NKeys))
+			c.Limit = max(1, c23ReplySize(c, k)+rapid.SampledFrom([]int{-1, 0, 0, 1}).Draw(t, "limit.delta"))
+		}
 	}
 	return c
+}
+
+// c23Hdr gives the node name and the query identity of a trunc case.
+func c23Hdr(c c23Case) (name string, ltime uint64, id uint32) {
+	name, ltime, id = c.Name, c.LTime, c.ID
+	if name == "" {
+		name = "lister"
+	}
+	if ltime == 0 {
+		ltime = 1
+	}
+	if id == 0 {
+		id = 4242
+	}
+	return
+}
+
+// c23ReplySize is the size on the wire of the list-keys reply of a trunc case
+// that shows the first k of its keys, encoded with the msgpack library
+// directly (keys are held in the order given: the primary is the first).
+func c23ReplySize(c c23Case, k int) int {
+	name, ltime, id := c23Hdr(c)
+	kr := wKeyResp{Result: true, PrimaryKey: c23KeyName(0)}
+	for i := 0; i < k; i++ {
+		kr.Keys = append(kr.Keys, c23KeyName(i))
+	}
+	if k < c.NKeys {
+		kr.Message = fmt.Sprintf("truncated key list response, showing first %d of %d keys", k, c.NKeys)
+	}
+	ib, _ := mpEnc(kr)
+	ob, _ := mpEnc(wResp{LTime: ltime, ID: id, From: name, Payload: append([]byte{serf.VerifMessageKeyResponseType}, ib...)})
+	return 1 + len(ob)
 }
 
 // ---- model of the aggregation ------------------------------------------------------
@@ -157,11 +222,28 @@ func c23Payload(r c23Reply) []byte {
 	case 3:
 		body.Result = true
 		b, _ := mpEnc(body)
-		return append([]byte{serf.VerifMessageQueryResponseType}, b...) // wrong type byte
+		tb := uint8(r.TB)
+		if tb == serf.VerifMessageKeyResponseType {
+			tb = serf.VerifMessageQueryResponseType
+		}
+		return append([]byte{tb}, b...) // wrong type byte
 	case 4:
 		return append([]byte{serf.VerifMessageKeyResponseType}, r.Raw...)
 	case 5:
 		return nil
+	case 8:
+		body.Result = true
+		b, _ := mpEnc(body)
+		if len(b) > 1 {
+			b = b[:1+r.Cut%(len(b)-1)]
+		}
+		return append([]byte{serf.VerifMessageKeyResponseType}, b...)
+	case 9:
+		shapes := []any{map[string]any{}, nil, []any{true, "m"}, "str", 7, map[string]any{"Result": "yes"}, map[string]any{"Result": true, "Keys": "notalist"},
+			map[string]any{"Result": true, "Keys": []any{1, 2}}, map[string]any{"Result": true, "Extra": 1, "Message": "m"}, map[string]any{"Result": 1},
+			map[string]any{"Result": true, "PrimaryKey": []byte("x")}, map[string]any{"result": true}, map[any]any{1: true}}
+		b, _ := mpEnc(shapes[r.Cut%len(shapes)])
+		return append([]byte{serf.VerifMessageKeyResponseType}, b...)
 	}
 	b, _ := mpEnc(body)
 	return append([]byte{serf.VerifMessageKeyResponseType}, b...)
@@ -340,12 +422,21 @@ func bodyC23API(c c23Case, x *vkit.Ctx) {
 	go func() {
 		var r *serf.KeyResponse
 		var err error
-		switch c.Op % 4 {
-		case 0:
+		opts := &serf.KeyRequestOptions{RelayFactor: uint8(c.Relay)}
+		switch {
+		case c.Relay > 0 && c.Op%4 == 0:
+			r, err = km.ListKeysWithOptions(opts)
+		case c.Relay > 0 && c.Op%4 == 1:
+			r, err = km.InstallKeyWithOptions(base64.StdEncoding.EncodeToString(c23Key(2)), opts)
+		case c.Relay > 0 && c.Op%4 == 2:
+			r, err = km.UseKeyWithOptions(key, opts)
+		case c.Relay > 0:
+			r, err = km.RemoveKeyWithOptions(key, opts)
+		case c.Op%4 == 0:
 			r, err = km.ListKeys()
-		case 1:
+		case c.Op%4 == 1:
 			r, err = km.InstallKey(base64.StdEncoding.EncodeToString(c23Key(2)))
-		case 2:
+		case c.Op%4 == 2:
 			r, err = km.UseKey(key)
 		default:
 			r, err = km.RemoveKey(key)
@@ -387,6 +478,9 @@ func bodyC23API(c c23Case, x *vkit.Ctx) {
 	x.Label("part:api")
 	x.Labelf("api:op%d", c.Op%4)
 	x.Labelf("api:nodes=%d", numNodes)
+	if c.Relay > 0 {
+		x.Label("api:with-relay-option")
+	}
 	c23LabelReplies(x, want, len(c.Replies), numNodes)
 	if !c23Compare(x, "api", out.r, want, numNodes) {
 		return
@@ -413,8 +507,9 @@ func bodyC23Trunc(c c23Case, x *vkit.Ctx) {
 	for i := 0; i < c.NKeys; i++ {
 		keys = append(keys, c23Key(i))
 	}
+	name, ltime, id := c23Hdr(c)
 	nw := simnet.New(1)
-	n, err := node.New(nw, node.Opts{Name: "lister", Quiet: true, Mutate: func(conf *serf.Config) {
+	n, err := node.New(nw, node.Opts{Name: name, Quiet: true, Mutate: func(conf *serf.Config) {
 		kr, _ := memberlist.NewKeyring(keys, keys[0])
 		conf.MemberlistConfig.Keyring = kr
 		conf.MemberlistConfig.GossipVerifyIncoming = false
@@ -433,7 +528,7 @@ func bodyC23Trunc(c c23Case, x *vkit.Ctx) {
 	}
 	N := len(ringNames)
 	nw.Packets()
-	q := serf.VerifMessageQuery{LTime: 1, ID: 4242, Addr: []byte{10, 9, 9, 9}, Port: 7946, SourceNode: "peer", Timeout: time.Minute, Name: "_serf_list-keys"}
+	q := serf.VerifMessageQuery{LTime: serf.LamportTime(ltime), ID: id, Addr: []byte{10, 9, 9, 9}, Port: 7946, SourceNode: "peer", Timeout: time.Minute, Name: "_serf_list-keys"}
 	msg, _ := serf.VerifEncodeMessage(serf.VerifMessageQueryType, &q, false)
 	n.Delegate.NotifyMsg(msg)
 
@@ -443,7 +538,7 @@ func bodyC23Trunc(c c23Case, x *vkit.Ctx) {
 		oneKey.Message = fmt.Sprintf("truncated key list response, showing first %d of %d keys", 1, N)
 	}
 	ib, _ := mpEnc(oneKey)
-	ob, _ := mpEnc(wResp{LTime: 1, ID: 4242, From: "lister", Payload: append([]byte{serf.VerifMessageKeyResponseType}, ib...)})
+	ob, _ := mpEnc(wResp{LTime: ltime, ID: id, From: name, Payload: append([]byte{serf.VerifMessageKeyResponseType}, ib...)})
 	oneFits := 1+len(ob) <= c.Limit
 
 	var reply []byte
@@ -466,6 +561,15 @@ func bodyC23Trunc(c c23Case, x *vkit.Ctx) {
 		}
 	}
 	x.Label("part:trunc")
+	for k := 0; k <= N; k++ {
+		if d := c.Limit - c23ReplySize(c, k); d >= -1 && d <= 1 {
+			x.Labelf("trunc:limit=size(k)%+d", d)
+			if k == 1 {
+				x.Labelf("trunc:limit=size(one-key)%+d", d)
+			}
+			break
+		}
+	}
 	if reply == nil {
 		x.Label("trunc:no-reply")
 		if oneFits {
@@ -483,7 +587,7 @@ func bodyC23Trunc(c c23Case, x *vkit.Ctx) {
 		x.Violationf("reply-undecodable", "reply %s", hexShort(reply))
 		return
 	}
-	if r.ID != 4242 || r.LTime != 1 || r.From != "lister" {
+	if r.ID != id || r.LTime != ltime || r.From != name {
 		x.Violationf("reply-header", "reply header %+v", r)
 		return
 	}
